@@ -1,4 +1,6 @@
 import MoPepGen.Model.Digest
+import MoPepGen.Model.Pairing
+import MoPepGen.Model.DigestPos
 import MoPepGen.Generated.Expasy
 import MoPepGen.Generated.Weights
 import MoPepGen.Driver.Util
@@ -41,6 +43,30 @@ def handle (args : List String) : String :=
       | none => "reject:inconsistent"
       | some l => joinWith "," (l.map fun (s, (a, b)) => s!"{s}:{a}-{b}")
     | _, _, _ => "bad-rule"
+  | ["pranges", rule, exc, seq] =>
+    -- positional statement of the pairing (Props.C10.range_pairing)
+    match lookupRule rule, lookupExc exc with
+    | some r, some e =>
+      joinWith "," ((rangeSpec r e seq.toList).map fun (s, (a, b)) => s!"{s}:{a}-{b}")
+    | _, _ => "bad-rule"
+  | ["wings", rule, seq] =>
+    -- iter_enzymatic_cleave_sites_with_range_local: with a covering wings entry the ranges of
+    -- the sites; otherwise the pattern cannot be found inside the window of any site
+    match lookupRule rule, Generated.expasyWings.lookup rule with
+    | some r, some w =>
+      let l := rangeSpec r none seq.toList
+      if w.1 == 0 && w.2 == 0 then "reject:wings-zero"
+      else if l.isEmpty then ""
+      else if wingsCover r w then joinWith "," (l.map fun (s, (a, b)) => s!"{s}:{a}-{b}")
+      else "reject:wings"
+    | _, _ => "bad-rule"
+  | ["pcleave", rule, exc, misc, minMw, minLen, maxLen, nf, seq] =>
+    -- positional digest (Props.C10.cleave_spec_positional / posDigest_spec)
+    match mkCfg rule exc misc minMw minLen maxLen with
+    | none => "bad-rule"
+    | some c => match posDigest c seq.toList (parseBool nf) with
+      | none => "crash:ValueError"
+      | some ps => pepsOut ps
   | ["cstop", rule, exc, seq] =>
     match lookupRule rule, lookupExc exc with
     | some r, some e => natList (cleaveAndStopSites r e seq.toList)
